@@ -14,6 +14,7 @@ type Args struct {
 	N, Len  int
 	KeyLen  int
 	Mode    string
+	Dribble int64
 }
 
 // Drivers maps driver names to entry points.
